@@ -5,7 +5,7 @@ from fractions import Fraction as F
 import random as _real_random
 
 COMPONENTS = ['laostar', 'lrtdp', 'astar', 'bfs', 'qlearning', 'sarsa', 'expectedsarsa', 'doubleq', 'rmax', 'bpi', 'gradientascent',
-              'semimdp', 'semimdp_unnamed', 'implicit', 'mdp_rollout', 'mdp_evaluate', 'pomdp_rollout']
+              'semimdp', 'semimdp_unnamed', 'implicit', 'astar_tiebreak', 'mixture_rollout', 'mdp_rollout', 'mdp_evaluate', 'pomdp_rollout']
 
 
 def _mdp(c, tabular=True):
@@ -98,6 +98,18 @@ def run(name, seed, c, rnd=None):
         from msdm.algorithms.search import AStarSearch
         r = AStarSearch(seed=seed, tie_breaking_strategy='random', randomize_action_order=True).plan_on(_graph())
         return dict(path=list(r.path), value=r.path_value)
+    if name == 'astar_tiebreak':
+        # random tie-breaking WITHOUT action shuffling (the constructor accepts the combination): still the planner's own generator
+        from msdm.algorithms.search import AStarSearch
+        r = AStarSearch(seed=seed, tie_breaking_strategy='random', randomize_action_order=False).plan_on(_graph())
+        return dict(path=list(r.path), value=r.path_value)
+    if name == 'mixture_rollout':
+        # roll-out of a policy whose action distributions are mixtures built with the `|` operator over string actions
+        from msdm.core.mdp.policy import FunctionalPolicy
+        from msdm.core.distributions import DictDistribution
+        pol = FunctionalPolicy(lambda s: DictDistribution({'right': 1}) * c(F(3, 5)) | DictDistribution.uniform(['left', 'right']) * c(F(2, 5)))
+        r = pol.run_on(_mdp(c), max_steps=3, rng=rnd.Random(seed))
+        return dict(states=r.state, actions=r.action, rewards=r.reward)
     if name == 'bfs':
         from msdm.algorithms.search import BreadthFirstSearch
         r = BreadthFirstSearch(seed=seed, randomize_action_order=True).plan_on(_graph())
